@@ -482,6 +482,142 @@ func ruleBatchSupplyInvariant(c *Ctx, m *Model) {
 	sort.Strings(ops)
 	c.Check(exact, "C01.INV", "exact-ops", p.Pos(fn.Pos()), "invariant uses only parsing, SafeAddBalance and Cmp: "+strings.Join(uniqStrings(ops), ","))
 	c.Check(cmpZero, "C01.INV", "compare", p.Pos(fn.Pos()), fmt.Sprintf("supply and accumulated balance are compared with Cmp against EqualTo (%d comparisons)", len(fl.cmps)))
+	// the registered closure hands the invariant a basket-holdings map keyed by batch key
+	nArg := ruleMapArgDims(c, m, "C01.INV", func(f *ssa.Function) bool { return f == fn }, func(sc *ssa.Function, prm *ssa.Parameter) string {
+		// the flow summary above: the basket entries are added, under their own keys, to the accumulator
+		// that the balance rows fill under BatchBalance.BatchKey
+		if !keyOK || tMap == nil || !colsInto[tMap]["basket"] {
+			return ""
+		}
+		for _, u := range fl.updates {
+			if u.m == tMap && u.keys["basket"] && len(u.keys) == 1 {
+				for _, t := range m.Tables {
+					if t.Name == "BatchBalance" {
+						return newDimAnalyzer(m).columnDim(t, "BatchKey")
+					}
+				}
+			}
+		}
+		return ""
+	})
+	c.Min("callers of BatchSupplyInvariant whose map argument is resolved", 1, nArg)
+	// every balance row read is accumulated: in the function that reads the rows, no path leads from the
+	// read of a row to the read of the next one, or on to a comparison, around the accumulation of any
+	// of its three columns (paths that return a failure on the way are not such paths). A skipped row
+	// leaves its batch without an accumulator entry (reported as "supply is not found") or its amount
+	// out of the sum.
+	skipMsg, nRows := "", 0
+	for rf := range fl.fns {
+		for _, blk := range rf.Blocks {
+			for _, in := range blk.Instrs {
+				ci, ok := in.(*ssa.Call)
+				if !ok || !returnsRowOf(m, ci, "BatchBalance") {
+					continue
+				}
+				nRows++
+				for _, col := range []string{"TradableAmount", "EscrowedAmount", "RetiredAmount"} {
+					sites := map[ssa.Instruction]bool{}
+					for _, u := range fl.updates {
+						if !u.srcs["col:BatchBalance."+col] {
+							continue
+						}
+						for _, s := range u.path {
+							if s != nil && s.Parent() == rf {
+								sites[s] = true
+								if cs, isCall := s.(*ssa.Call); isCall {
+									if h := tableLoopHeader(cs); h != nil {
+										sites[h] = true
+									}
+								}
+							}
+						}
+					}
+					targets := map[ssa.Instruction]bool{ci: true}
+					for _, cp := range fl.cmps {
+						for _, s := range cp.path {
+							if s != nil && s.Parent() == rf {
+								targets[s] = true
+							}
+						}
+					}
+					if t := reachesAround(ci, sites, targets); t != nil && skipMsg == "" {
+						skipMsg = fmt.Sprintf("%s: a path leads from the row read at %s to %s without accumulating %s", funcKey(rf), p.Pos(ci.Pos()), p.Pos(t.Pos()), col)
+					}
+				}
+			}
+		}
+	}
+	if nRows == 0 {
+		c.Undecide("C01.INV", "every-row", p.Pos(fn.Pos()), "the read of the BatchBalance rows was not found in the invariant and its helpers")
+	} else {
+		c.Check(skipMsg == "", "C01.INV", "every-row", p.Pos(fn.Pos()), "every BatchBalance row read is accumulated with all three columns before the next row is read or a comparison is made (no skipping path)"+map[bool]string{true: "", false: " — " + skipMsg}[skipMsg == ""])
+	}
+}
+
+// returnsRowOf: the call yields a row of the named table (iterator Value, Get).
+func returnsRowOf(m *Model, ci *ssa.Call, table string) bool {
+	check := func(t types.Type) bool {
+		tb := m.TableOfRow(t)
+		return tb != nil && tb.Name == table
+	}
+	switch t := ci.Type().(type) {
+	case *types.Tuple:
+		for i := 0; i < t.Len(); i++ {
+			if check(t.At(i).Type()) {
+				return true
+			}
+		}
+		return false
+	default:
+		return check(t)
+	}
+}
+
+// reachesAround: some instruction of targets is reachable from (after) start along a path that does not
+// execute any instruction of sites. Returns the target reached, nil if none.
+func reachesAround(start ssa.Instruction, sites, targets map[ssa.Instruction]bool) ssa.Instruction {
+	sb := start.Block()
+	si := 0
+	for i, in := range sb.Instrs {
+		if in == start {
+			si = i + 1
+		}
+	}
+	return reachesAroundFrom(sb, si, sites, targets)
+}
+
+func reachesAroundFrom(sb *ssa.BasicBlock, si int, sites, targets map[ssa.Instruction]bool) ssa.Instruction {
+	type pos struct {
+		b *ssa.BasicBlock
+		i int
+	}
+	seen := map[*ssa.BasicBlock]bool{}
+	work := []pos{{sb, si}}
+	for len(work) > 0 {
+		cur := work[len(work)-1]
+		work = work[:len(work)-1]
+		blocked := false
+		for i := cur.i; i < len(cur.b.Instrs); i++ {
+			in := cur.b.Instrs[i]
+			if sites[in] {
+				blocked = true
+				break
+			}
+			if targets[in] {
+				return in
+			}
+		}
+		if blocked {
+			continue
+		}
+		for _, s := range cur.b.Succs {
+			if !seen[s] {
+				seen[s] = true
+				work = append(work, pos{s, 0})
+			}
+		}
+	}
+	return nil
 }
 
 // ruleGenesisSupplyCompare: genesis validation is the induction base of the conservation argument
@@ -573,12 +709,14 @@ type invUpdate struct {
 	m    ssa.Value // accumulator (MakeMap of the invariant function)
 	srcs map[string]bool
 	keys map[string]bool
+	path []ssa.Instruction // the instruction being scanned at every level of the scan stack
 }
 
 type invCmp struct {
 	srcs   map[string]bool
 	keys   map[string]bool
 	vsZero bool
+	path   []ssa.Instruction
 }
 
 type invFlow struct {
@@ -589,6 +727,7 @@ type invFlow struct {
 	cmps    []invCmp
 	maps    []ssa.Value
 	clos    map[*ssa.Function]*ssa.MakeClosure
+	stack   []ssa.Instruction
 }
 
 func newInvFlow(m *Model, root *ssa.Function) *invFlow {
@@ -728,8 +867,11 @@ func (f *invFlow) scan(fn *ssa.Function, b *invBind, depth int) {
 		return
 	}
 	f.fns[fn] = true
+	f.stack = append(f.stack, nil)
+	defer func() { f.stack = f.stack[:len(f.stack)-1] }()
 	for _, blk := range fn.Blocks {
 		for _, in := range blk.Instrs {
+			f.stack[len(f.stack)-1] = in
 			switch x := in.(type) {
 			case *ssa.MakeClosure:
 				if cf, ok := x.Fn.(*ssa.Function); ok {
@@ -744,6 +886,7 @@ func (f *invFlow) scan(fn *ssa.Function, b *invBind, depth int) {
 				u := invUpdate{m: mv, srcs: map[string]bool{}, keys: map[string]bool{}}
 				f.srcs(x.Value, b, 0, u.srcs)
 				f.srcs(x.Key, b, 0, u.keys)
+				u.path = append([]ssa.Instruction(nil), f.stack...)
 				f.updates = append(f.updates, u)
 			case *ssa.Call:
 				if isCallTo(x, "Dec.Cmp") {
@@ -765,6 +908,7 @@ func (f *invFlow) scan(fn *ssa.Function, b *invBind, depth int) {
 							}
 						}
 					}
+					cp.path = append([]ssa.Instruction(nil), f.stack...)
 					f.cmps = append(f.cmps, cp)
 					continue
 				}
@@ -841,6 +985,55 @@ func (f *invFlow) scan(fn *ssa.Function, b *invBind, depth int) {
 
 // tableElemField: v is field `fld` of the element of a local array literal selected by a (loop) index.
 func tableElemField(v ssa.Value) (*ssa.Alloc, int, bool) {
+	al, fld, _, ok := tableElemFieldIA(v)
+	return al, fld, ok
+}
+
+// tableLoopHeader: the call reads its arguments out of the element of a non-empty literal table ranged
+// over in full, and is executed on every iteration: the conditional jump of the loop header, which a path
+// can only leave towards the code after the loop once the call has been made for every row.
+func tableLoopHeader(call *ssa.Call) ssa.Instruction {
+	for _, a := range call.Call.Args {
+		al, _, ia, ok := tableElemFieldIA(a)
+		if !ok || ia == nil {
+			continue
+		}
+		if arr, isArr := al.Type().(*types.Pointer).Elem().Underlying().(*types.Array); !isArr || arr.Len() == 0 {
+			continue
+		}
+		if sl, isSl := ia.X.(*ssa.Slice); isSl && (sl.Low != nil || sl.High != nil) {
+			continue
+		}
+		idx, isIn := ia.Index.(ssa.Instruction)
+		if !isIn {
+			continue
+		}
+		h := idx.Block()
+		if len(h.Instrs) == 0 || len(h.Succs) != 2 {
+			continue
+		}
+		ifIn, isIf := h.Instrs[len(h.Instrs)-1].(*ssa.If)
+		if !isIf {
+			continue
+		}
+		// the call is made on every trip round the loop: from the first instruction of the body no path
+		// returns to the header around it
+		body := h.Succs[0]
+		if len(body.Instrs) == 0 {
+			continue
+		}
+		first := body.Instrs[0]
+		if first != ssa.Instruction(call) {
+			if reachesAroundFrom(body, 0, map[ssa.Instruction]bool{call: true}, map[ssa.Instruction]bool{ifIn: true}) != nil {
+				continue
+			}
+		}
+		return ifIn
+	}
+	return nil
+}
+
+func tableElemFieldIA(v ssa.Value) (*ssa.Alloc, int, *ssa.IndexAddr, bool) {
 	var ia *ssa.IndexAddr
 	fld := -1
 	switch x := v.(type) {
@@ -866,7 +1059,7 @@ func tableElemField(v ssa.Value) (*ssa.Alloc, int, bool) {
 		}
 	}
 	if ia == nil || fld < 0 {
-		return nil, 0, false
+		return nil, 0, nil, false
 	}
 	base := ia.X
 	if sl, ok := base.(*ssa.Slice); ok {
@@ -874,12 +1067,12 @@ func tableElemField(v ssa.Value) (*ssa.Alloc, int, bool) {
 	}
 	al, ok := base.(*ssa.Alloc)
 	if !ok {
-		return nil, 0, false
+		return nil, 0, nil, false
 	}
 	if _, isArr := al.Type().(*types.Pointer).Elem().Underlying().(*types.Array); !isArr {
-		return nil, 0, false
+		return nil, 0, nil, false
 	}
-	return al, fld, true
+	return al, fld, ia, true
 }
 
 // tableStores: row index → field index → value stored by the literal.
